@@ -467,6 +467,16 @@ func (r *Reader) readRemoteNodeContent(ctx context.Context, node RemoteNode) ([]
 
 	r.debugf("checking cache for %q in %q\n", node.Location(), cache.Location())
 	cachedBytes, err := cache.Read()
+	// The includes of a cached copy are resolved against the location the
+	// copy was downloaded from
+	useCache := func() ([]byte, error) {
+		if node, ok := node.(resolvingNode); ok {
+			if location := cache.ReadResolvedLocation(); location != "" {
+				node.setResolvedLocation(location)
+			}
+		}
+		return cachedBytes, nil
+	}
 	switch {
 	// If the cache doesn't exist, we need to download the file
 	case errors.Is(err, os.ErrNotExist):
@@ -485,7 +495,7 @@ func (r *Reader) readRemoteNodeContent(ctx context.Context, node RemoteNode) ([]
 		// If we can't fetch a fresh copy, we should use the cache anyway
 		if r.offline {
 			r.debugf("in offline mode, using expired cache\n")
-			return cachedBytes, nil
+			return useCache()
 		}
 
 	// Some other error
@@ -497,7 +507,7 @@ func (r *Reader) readRemoteNodeContent(ctx context.Context, node RemoteNode) ([]
 		r.debugf("cache found\n")
 		// Not being forced to redownload, return cache
 		if !r.download {
-			return cachedBytes, nil
+			return useCache()
 		}
 		cacheFound = true
 	}
@@ -514,7 +524,7 @@ func (r *Reader) readRemoteNodeContent(ctx context.Context, node RemoteNode) ([]
 			} else {
 				r.debugf("failed to fetch remote file: %s: using expired cache\n", err.Error())
 			}
-			return cachedBytes, nil
+			return useCache()
 		}
 		return nil, err
 	}
@@ -542,6 +552,13 @@ func (r *Reader) readRemoteNodeContent(ctx context.Context, node RemoteNode) ([]
 	// Store the timestamp
 	if err := cache.WriteTimestamp(now); err != nil {
 		return nil, err
+	}
+
+	// Store the location the file was found at
+	if node, ok := node.(resolvingNode); ok {
+		if err := cache.WriteResolvedLocation(node.resolvedLocation()); err != nil {
+			return nil, err
+		}
 	}
 
 	// Cache the file
